@@ -227,3 +227,31 @@ class StreamDecoder:
                 self.decomp = zlib.decompressobj()
             if self.cmp == 'zlib':
                 self.cmp_active = True
+
+
+# ---------------------------------------------------------------------------
+# sealing (used by the MITM-with-keys injector of the C06 check; chacha20-poly1305 is stateless per packet)
+
+def chacha_seal(key64: bytes, seq: int, payload: bytes, padding_byte: int = 0) -> bytes:
+    """One chacha20-poly1305@openssh.com packet carrying `payload` under sequence number `seq`."""
+    padlen = -(1 + len(payload)) % 8
+    if padlen < 4:
+        padlen += 8
+    packet = bytes([padlen]) + payload + bytes([padding_byte]) * padlen
+    k2, k1 = key64[:32], key64[32:]
+    nonce = b'\0' * 8 + struct.pack('>Q', seq)
+    enc_len = Cipher(algorithms.ChaCha20(k1, nonce), None).encryptor().update(struct.pack('>I', len(packet)))
+    nonce1 = struct.pack('<Q', 1) + struct.pack('>Q', seq)
+    body = Cipher(algorithms.ChaCha20(k2, nonce1), None).encryptor().update(packet)
+    polykey = Cipher(algorithms.ChaCha20(k2, nonce), None).encryptor().update(b'\0' * 32)
+    p = poly1305.Poly1305(polykey)
+    p.update(enc_len + body)
+    return enc_len + body + p.finalize()
+
+
+def plain_frame(payload: bytes, padding_byte: int = 0) -> bytes:
+    padlen = -(5 + len(payload)) % 8
+    if padlen < 4:
+        padlen += 8
+    packet = bytes([padlen]) + payload + bytes([padding_byte]) * padlen
+    return struct.pack('>I', len(packet)) + packet
